@@ -5,7 +5,11 @@ prop("C03", False, "A", "", "", NB, "7/C03")
 prop("C04", False, "A", "", "", NB, "7/C04")
 prop("C05", False, "A+B", "", "", NB, "7/C05")
 prop("C06", False, "B", "", "", NB, "7/C06")
-prop("C07", False, "A+C", "", "", NB, "7/C07")
+prop("C07", True, "A+C",
+     "exhaustive enumeration of all step words (predict / update with 6 kinds of measurement) up to a depth and of all periodic words of length <= 4 unrolled to 300 steps on the real filters, each step compared with an f64 textbook step from the implementation's own pre-state; complete f32 bit-pattern sweep of the cost conversions",
+     "Bounded exhaustive search over filter histories (depth 5 quick / 7 thorough, 36+9 configurations) with a per-step reference, so no drift accumulates in the oracle; the cost functions are unary f32 functions and are checked on every non-negative bit pattern in the thorough tier.",
+     "Trusted: the f64 reference recurrence in engine/src/props/c07.rs and the H4 accessor. Measurements follow a filter-independent object trajectory with heights within [h0/4, 4*h0]; states whose predicted height collapses to ~0 (noise model degenerates) are outside the explored space.",
+     "7/C07")
 prop("C08", False, "C", "", "", NB, "7/C08")
 prop("C09", False, "A+B", "", "", NB, "7/C09")
 prop("C10", False, "B", "", "", NB, "7/C10")
